@@ -119,6 +119,22 @@ Theorem C34_scan_to_value_first : forall (V : Type) (veqb : V -> V -> bool),
   end.
 Proof. exact c34_scan_to_value_first. Qed.
 
+(* ---- scope_to_value: inside a window that is sorted (by any strict total order compatible with the
+   equality test) the returned range lies inside the window and is exactly where v is; when v is absent
+   it is empty (at the insertion point: everything before it is smaller) ---- *)
+Theorem C34_scope_to_value_spec : forall (V : Type) (veqb vltb : V -> V -> bool),
+  (forall x y, veqb x y = true <-> x = y) ->
+  (forall x, vltb x x = false) ->
+  (forall x y z, vltb x y = true -> vltb y z = true -> vltb x z = true) ->
+  (forall x y, vltb x y = false -> vltb y x = false -> x = y) ->
+  forall (v : V) (a b : nat) (l : list V),
+  sorted_asc vltb (iter_range a b l) ->
+  win_start a l <= fst (scope_to_value veqb vltb v a b l) <= snd (scope_to_value veqb vltb v a b l) /\
+  snd (scope_to_value veqb vltb v a b l) <= win_end a b l /\
+  forall k, win_start a l <= k < win_end a b l ->
+            (get k l = Some v <-> fst (scope_to_value veqb vltb v a b l) <= k < snd (scope_to_value veqb vltb v a b l)).
+Proof. exact c34_scope_to_value_spec. Qed.
+
 (* ---- prefix sums ---- *)
 Theorem C34_prefix_sum_app : forall (V : Type) (wt : V -> Z) (l1 l2 : list V) (i : nat),
   get_prefix wt (length l1 + i) (l1 ++ l2) = (sum wt l1 + get_prefix wt i l2)%Z.
@@ -225,6 +241,15 @@ Proof. reflexivity. Qed.
 Example C34_runs_nonvacuous :
   run_iter Nat.eqb 1 6 [5; 5; 5; 2; 2; 7; 7] = [(2, 5); (2, 2); (1, 7)].
 Proof. reflexivity. Qed.
+
+Example C34_scope_nonvacuous :
+  scope_to_value Nat.eqb Nat.ltb 5 1 7 [9; 2; 5; 5; 5; 8; 9; 0] = (2, 5) /\
+  scope_to_value Nat.eqb Nat.ltb 6 1 7 [9; 2; 5; 5; 5; 8; 9; 0] = (5, 5) /\
+  sorted_asc Nat.ltb (iter_range 1 7 [9; 2; 5; 5; 5; 8; 9; 0]).
+Proof.
+  split; [reflexivity|]. split; [reflexivity|].
+  cbn. repeat (constructor; [|repeat constructor]). constructor.
+Qed.
 
 Example C34_index_nonvacuous :
   let l := [5; 3; 7; 2]%Z in
